@@ -102,7 +102,7 @@ RouterWrite(kind, p) ==
 
 Next == \/ Begin \/ TxSnapshot \/ ReaderHold \/ Commit \/ Abort
         \/ \E i \in 1..GenMaxSnaps : Forget(i)
-        \/ \E kind \in {"Insert", "Update", "Remove"}, p \in DOMAIN Pool : TxWrite(kind, p) \/ RouterWrite(kind, p)
+        \/ \E kind \in GenKinds, p \in DOMAIN Pool : TxWrite(kind, p) \/ RouterWrite(kind, p)
 Spec == Init /\ [][Next]_vars
 
 \* ---- properties ---------------------------------------------------------------------------------------
